@@ -98,6 +98,41 @@ def _assign_of(fn, store_node):
     return None
 
 
+def _uses_everywhere(idx, tail, module_prefix=None):
+    """(fn, node, is_call) for every call of / bare attribute reference to `tail` in the package, *including those
+    inside lambda bodies* (the engine's who-may-call sweep does not enter lambdas)."""
+    out = []
+    for f in idx.funcs.values():
+        if tail not in f.module.source:
+            continue
+        if module_prefix and not f.module.name.startswith(module_prefix):
+            continue
+        nodes = list(func_own_nodes(f, into_lambda=True))
+        callee = {id(n.func) for n in nodes if isinstance(n, ast.Call)}
+        for n in nodes:
+            if isinstance(n, ast.Call) and call_tail(n) == tail:
+                out.append((f, n, True))
+            elif isinstance(n, ast.Attribute) and n.attr == tail and isinstance(n.ctx, ast.Load) and id(n) not in callee:
+                out.append((f, n, False))
+    seen = set()
+    res = []
+    for (f, n, c) in out:
+        if id(n) not in seen:
+            seen.add(id(n))
+            res.append((f, n, c))
+    return res
+
+
+def _who_may_use(r, idx, tail, allowed, what, module_prefix=None):
+    allowed = ["allmydata." + a for a in allowed]
+    uses = _uses_everywhere(idx, tail, module_prefix)
+    for (f, n, is_call) in uses:
+        if any(f.qual == a or f.qual.startswith(a + ".") for a in allowed):
+            continue
+        r.violation(f, f.loc(n), "%s %s %s %s" % (short(f), "calls" if is_call else "takes as a value", tail, what))
+    return len(uses)
+
+
 def run(ctx: Context):
     idx = ctx.idx
     cg = get_callgraph(idx)
@@ -144,14 +179,10 @@ def run(ctx: Context):
         for tail, allowed in (("_populate_pubkey", [SM + "._try_to_set_pubkey"]),
                               ("_populate_privkey", [SM + "._try_to_validate_privkey", RET + "._try_to_validate_privkey"]),
                               ("_populate_encprivkey", [SM + "._try_to_validate_privkey", RET + "._try_to_validate_privkey"])):
-            bad, badrefs, total = callers_outside(idx, tail, allowed)
+            total = _who_may_use(r, idx, tail, allowed, "outside the validated path")
             if total < 1:
                 raise AnchorVanished("no caller of %s" % tail)
             r.site("callers of %s: %d" % (tail, total))
-            for cs in bad:
-                r.violation(cs.fn, cs.loc, "%s calls %s outside the validated path" % (short(cs.fn), tail))
-            for (f, nd) in badrefs:
-                r.violation(f, f.loc(nd), "%s takes %s as a value" % (short(f), tail))
         for attr, allowed in (("_pubkey", {"__init__": "None", "_populate_pubkey": "param", "create_with_keys": "keypair"}),
                               ("_fingerprint", {"init_from_cap": "cap", "create_with_keys": "keypair"})):
             n_sites = 0
@@ -242,15 +273,11 @@ def run(ctx: Context):
     # -- 4. who may record shares / versions -----------------------------------
     with ctx.rule("C10.4", "R4", "add_new_share only from _got_signature_one_share and Publish._got_write_answer(own "
                   "versioninfo); _known_shares / _valid_versions written only by their owners", expected=6) as r:
-        bad, badrefs, total = callers_outside(idx, "add_new_share",
-                                              [SM + "._got_signature_one_share", PUB + "._got_write_answer"])
+        total = _who_may_use(r, idx, "add_new_share", [SM + "._got_signature_one_share", PUB + "._got_write_answer"],
+                             "(records a share in the servermap without signature verification)")
         if total < 2:
             raise AnchorVanished("callers of add_new_share")
         r.site("callers of add_new_share: %d" % total)
-        for cs in bad:
-            r.violation(cs.fn, cs.loc, "%s records a share in the servermap without signature verification" % short(cs.fn))
-        for (f, nd) in badrefs:
-            r.violation(f, f.loc(nd), "%s takes add_new_share as a value" % short(f))
         pw = idx.func(PUB + "._got_write_answer")
         pn = FlowNorm(pw)
         seen = 0
@@ -290,12 +317,14 @@ def run(ctx: Context):
             r.site(f, nd, "bind _valid_versions")
             r.require(f.cls is not None and f.cls.name == "ServermapUpdater" and f.name in ("__init__", "update"),
                       f, f.loc(nd), "%s re-binds _valid_versions" % short(f))
-        for tail in ("add", "update"):
-            for cs in cg.calls_named(tail):
-                f = cs.call.func
-                if isinstance(f, ast.Attribute) and isinstance(f.value, ast.Attribute) and f.value.attr == "_valid_versions":
-                    r.require(cs.fn.qual == "allmydata." + SM + "._got_signature_one_share", cs.fn, cs.loc,
-                              "%s adds to _valid_versions" % short(cs.fn))
+        for f in idx.funcs.values():
+            if "_valid_versions" not in f.module.source:
+                continue
+            for n in func_own_nodes(f, into_lambda=True):
+                if isinstance(n, ast.Call) and isinstance(n.func, ast.Attribute) and n.func.attr in ("add", "update") \
+                        and isinstance(n.func.value, ast.Attribute) and n.func.value.attr == "_valid_versions":
+                    r.require(f.qual == "allmydata." + SM + "._got_signature_one_share", f, f.loc(n),
+                              "%s adds to _valid_versions" % short(f))
 
     # -- 5. the signed prefix covers the verinfo fields --------------------------
     with ctx.rule("C10.5", "R5", "MDMFSlotReadProxy.get_verinfo: element 7 is _build_prefix() and every other signed field "
@@ -574,13 +603,8 @@ def run(ctx: Context):
             c = calls_at(n, "_decode_blocks")[0]
             r.require(bool(c.args) and res in depends_on(md, c.args[0]), md, md.loc(c),
                       "_decode_blocks is given %s, not the outputs of _validate_block" % (src(md, c.args[0]) if c.args else "?"))
-        bad, badrefs, total = callers_outside(idx, "_decode_blocks", [RET + "._maybe_decode_and_decrypt_segment", RET + ".decode"],
-                                              recv_filter=lambda cs: cs.fn.module.name.startswith("allmydata.mutable"))
-        for cs in bad:
-            r.violation(cs.fn, cs.loc, "%s calls _decode_blocks" % short(cs.fn))
-        for (f, nd) in badrefs:
-            if f.module.name.startswith("allmydata.mutable"):
-                r.violation(f, f.loc(nd), "%s takes _decode_blocks as a value" % short(f))
+        _who_may_use(r, idx, "_decode_blocks", [RET + "._maybe_decode_and_decrypt_segment", RET + ".decode"],
+                     "(blocks that did not come out of _validate_block)", module_prefix="allmydata.mutable")
         # chain: decode -> _decrypt_segment -> ... -> _set_segment
         dvars = {attr_path(t) for n in func_own_nodes(md) if isinstance(n, ast.Assign)
                  and contains_call(n.value, "_decode_blocks") for t in n.targets}
@@ -628,9 +652,8 @@ def run(ctx: Context):
                       "unexpected callback %s on the gathered validation results" % tn_)
         # consumer.write
         nw = 0
-        for cs in cg.calls_named("write"):
-            if cs.fn.module.name != "allmydata.mutable.retrieve":
-                continue
+        for cs in [CallSite(f, c) for f in idx.funcs.values() if f.module.name == "allmydata.mutable.retrieve"
+                   for c in calls_in_func(f, "write", into_lambda=True)]:
             nw += 1
             r.site(cs.fn, cs.call, "consumer.write")
             f = cs.fn
@@ -652,11 +675,8 @@ def run(ctx: Context):
             r.require(okw, f, cs.loc, "consumer.write(%s) is not (a slice of) the decrypted segment" % src(f, a0))
         if not nw:
             raise AnchorVanished("consumer.write in mutable/retrieve.py")
-        bad, badrefs, total = callers_outside(idx, "_set_segment", [RET + "._process_segment", RET + "._maybe_decode_and_decrypt_segment"])
-        for cs in bad:
-            r.violation(cs.fn, cs.loc, "%s calls _set_segment" % short(cs.fn))
-        for (f, nd) in badrefs:
-            r.violation(f, f.loc(nd), "%s uses _set_segment as a callback" % short(f))
+        _who_may_use(r, idx, "_set_segment", [RET + "._process_segment", RET + "._maybe_decode_and_decrypt_segment"],
+                     "(writes to the consumer)", module_prefix="allmydata.mutable")
         # verify-mode use of _set_segment in _process_segment is under self._verify
         pcfg = pseg.cfg()
         pfn = FlowNorm(pseg)
